@@ -3,6 +3,7 @@ package main
 // Calls: contracts, library table, inlining, havoc.
 
 import (
+	"os"
 	"fmt"
 	"go/token"
 	"go/types"
@@ -213,7 +214,7 @@ func (f *frame) call(res ssa.Value, c *ssa.CallCommon, st *State, cur string) (s
 			if f.callLog == nil {
 				f.callLog = map[string][]callRec{}
 			}
-			rec := callRec{val: f.vals[res], cond: before}
+			rec := callRec{common: c, val: f.vals[res], cond: before}
 			if c.IsInvoke() {
 				rec.args = append(rec.args, f.valOf(c.Value))
 				rec.argT = append(rec.argT, c.Value.Type())
@@ -223,6 +224,9 @@ func (f *frame) call(res ssa.Value, c *ssa.CallCommon, st *State, cur string) (s
 				rec.argT = append(rec.argT, a.Type())
 			}
 			f.callLog[name] = append(f.callLog[name], rec)
+			if os.Getenv("GVC_DEBUGCALLS") != "" {
+				fmt.Fprintf(os.Stderr, "calllog %s #%d at %s (%s)\n", name, len(f.callLog[name])-1, f.t.P.Prog.Fset.Position(c.Pos()), f.vname(res))
+			}
 			// methods are also logged as ReceiverType_Method (disambiguates equal method names)
 			if fn := c.StaticCallee(); fn != nil && fn.Signature.Recv() != nil {
 				rt := fn.Signature.Recv().Type()
